@@ -82,7 +82,7 @@ def write_evidence(prop: str, tier: str, seed: int, obs: Sequence[Ob], violation
     per_rule: Dict[str, Dict[str, int]] = {}
     for o in obs:
         d = per_rule.setdefault(o.rule, {"ok": 0, "violation": 0, "unanalysed": 0, "note": 0})
-        d[o.status] += 1
+        d[o.status] = d.get(o.status, 0) + 1
     samples = []
     seen_rules = set()
     for o in obs:                      # one sample per rule first, then a few more
